@@ -7,7 +7,7 @@ seeds=${*:-"2 3 4 5 6"}
 out=$(mktemp -d /var/tmp/pmssweep.XXXXXX)
 bad=0
 for s in $seeds; do
-  for p in C01 C02 C03 C04 C05 C06 C07 C08 C09 C10 C11 C12 C13 C14 C15 C16 C17 C18 C19 C20; do
+  for p in ${PROPS:-C01 C02 C03 C04 C05 C06 C07 C08 C09 C10 C11 C12 C13 C14 C15 C16 C17 C18 C19 C20}; do
     t0=$(date +%s)
     VERIF_SEED=$s VERIF_EVIDENCE_DIR=$out ./check $p --tier $tier > $out/$p.$s.log 2>&1
     rc=$?
